@@ -1,0 +1,91 @@
+//go:build verif
+
+// Contracts for package indexes (comment-only; read by /verif/vcgo, build tag verif).
+package indexes
+
+//@ spec func le24(b []byte, o int) uint32 = uint32(b[o]) + uint32(b[o+1])*256 + uint32(b[o+2])*65536
+//@ spec func le40(b []byte, o int) uint64 = uint64(b[o]) + uint64(b[o+1])*256 + uint64(b[o+2])*65536 + uint64(b[o+3])*16777216 + uint64(b[o+4])*4294967296
+//@ spec func le48(b []byte, o int) uint64 = uint64(b[o]) + uint64(b[o+1])*256 + uint64(b[o+2])*65536 + uint64(b[o+3])*16777216 + uint64(b[o+4])*4294967296 + uint64(b[o+5])*1099511627776
+
+//@ func Uint24tob
+//@   mode bv
+//@   panics v > MaxUint24
+//@   ensures len(result) == 3 && fresh(result)
+//@   ensures result[0] == byte(v) && result[1] == byte(v >> 8) && result[2] == byte(v >> 16)
+//@   ensures le24(result, 0) == v
+
+//@ func BtoUint24
+//@   mode bv
+//@   requires len(buf) >= 3
+//@   ensures len(buf) == 3 ==> result == le24(buf, 0)
+
+//@ func Uint40tob
+//@   mode bv
+//@   panics v > MaxUint40
+//@   ensures len(result) == 5 && fresh(result)
+//@   ensures forall i int :: 0 <= i && i < 5 ==> result[i] == byte(v >> (8*uint(i)))
+
+//@ func BtoUint40
+//@   mode bv
+//@   requires len(buf) >= 5
+//@   ensures len(buf) == 5 ==> result == le40(buf, 0)
+
+//@ func Uint48tob
+//@   mode bv
+//@   panics v > MaxUint48
+//@   ensures len(result) == 6 && fresh(result)
+//@   ensures forall i int :: 0 <= i && i < 6 ==> result[i] == byte(v >> (8*uint(i)))
+
+//@ func BtoUint48
+//@   mode bv
+//@   requires len(buf) >= 6
+//@   ensures len(buf) == 6 ==> result == le48(buf, 0)
+
+//@ func Uint64tob
+//@   mode bv
+//@   ensures len(result) == 8 && fresh(result)
+//@   ensures forall i int :: 0 <= i && i < 8 ==> result[i] == byte(v >> (8*uint(i)))
+
+//@ func BtoUint64
+//@   mode bv
+//@   requires len(buf) >= 8
+//@   ensures forall i int :: 0 <= i && i < 8 ==> byte(result >> (8*uint(i))) == buf[i]
+
+//@ func cloneAndPad
+//@   mode bv
+//@   requires pad >= 0 && pad <= 8
+//@   ensures len(result) == len(buf)+pad && fresh(result)
+//@   ensures forall i int :: 0 <= i && i < len(buf) ==> result[i] == buf[i]
+//@   ensures forall i int :: len(buf) <= i && i < len(buf)+pad ==> result[i] == 0
+
+//@ func (*OffsetAndSize) IsValid
+//@   mode bv
+//@   requires oas != nil
+//@   ensures result == (oas.Offset <= MaxUint48 && oas.Size <= MaxUint24)
+
+//@ func (OffsetAndSize) IsZero
+//@   mode bv
+//@   ensures result == (oas.Offset == 0 && oas.Size == 0)
+
+//@ func (OffsetAndSize) Bytes
+//@   mode bv
+//@   panics oas.Offset > MaxUint48 || uint32(oas.Size) > MaxUint24
+//@   ensures len(result) == 9 && fresh(result)
+//@   ensures le48(result, 0) == oas.Offset && le24(result, 6) == uint32(oas.Size)
+
+//@ func (*OffsetAndSize) FromBytes
+//@   mode bv
+//@   requires oas != nil
+//@   modifies oas
+//@   ensures (result == nil) == (len(buf) == 9)
+//@   ensures result == nil ==> oas.Offset == le48(buf, 0) && oas.Size == uint64(le24(buf, 6))
+//@   ensures result != nil ==> *oas == old(*oas)
+
+//@ func OffsetAndSizeSliceFromBytes
+//@   mode int
+//@   ensures (result1 == nil) == (len(buf) % 9 == 0)
+//@   ensures result1 == nil ==> len(result0) * 9 == len(buf) && fresh(result0)
+//@   ensures result1 == nil ==> forall k int :: 0 <= k && k < len(result0) ==> result0[k].Offset == le48(buf, 9*k) && result0[k].Size == uint64(le24(buf, 9*k+6))
+//@   loop 0 invariant 0 <= i && i <= len(oass) && len(oass)*9 == len(buf) && fresh(oass)
+//@   loop 0 invariant forall k int :: 0 <= k && k < i ==> oass[k].Offset == le48(buf, 9*k) && oass[k].Size == uint64(le24(buf, 9*k+6))
+//@   loop 0 decreases len(oass) - i
